@@ -539,16 +539,31 @@ func checkQueueCleared(c *Ctx, pkg, label string) {
 			continue
 		}
 		key := label + "." + m + ":queue-cleared-first"
-		qd := callsIn(f, "(*"+pkg+".plotterQueue).Delete")
-		if len(qd) != 1 {
+		isQD := func(cl *ssa.Call) bool { return isCall(cl, "(*"+pkg+".plotterQueue).Delete") }
+		locs := findSteps(f, isQD, 1)
+		if len(locs) != 1 {
 			c.Bad(rule, key, c.Pos(f.Pos()), "the space is not removed from the plotter queue (queue.Delete) exactly once")
 			continue
 		}
+		loc := locs[0]
+		qd := []*ssa.Call{loc.Site}
 		// the sid deleted is the function's sid
-		if !backSlice(qd[0].Call.Args[1]).hasParam(f, "sid") {
-			c.Bad(rule, key, c.Pos(qd[0].Pos()), "queue.Delete is applied to a different space id than the request's")
+		if !sliceVia(loc.Step.Call.Args[1], loc).hasParam(f, "sid") {
+			c.Bad(rule, key, c.Pos(loc.Step.Pos()), "queue.Delete is applied to a different space id than the request's")
 			continue
 		}
+		viaCut := func(from, to *ssa.BasicBlock) bool { return false }
+		if loc.Site != loc.Step {
+			// through a helper: it must have cleared the queue whenever it succeeds, and the effects must
+			// not be reachable when it failed
+			h := loc.Via[0]
+			if !mustDoOnSuccess(h, func(in ssa.Instruction) bool { cl, ok := in.(*ssa.Call); return ok && isQD(cl) }) || len(errResults(loc.Site)) == 0 {
+				c.Bad(rule, key, c.Pos(loc.Step.Pos()), FuncName(h)+" can succeed without having removed the space from the plotter queue")
+				continue
+			}
+			viaCut = errorEdgeCut(f, loc.Site, false)
+		}
+		failOnly := reach(f, loc.Site, viaCut, nil)
 		bad := false
 		nEff := 0
 		allInstrs(f, func(in ssa.Instruction) {
@@ -568,7 +583,7 @@ func checkQueueCleared(c *Ctx, pkg, label string) {
 				return
 			}
 			nEff++
-			if !instrDominates(qd[0], in) {
+			if !instrDominates(qd[0], in) || (loc.Site != loc.Step && failOnly(in)) {
 				bad = true
 				c.Bad(rule, key, c.Pos(in.Pos()), "a state effect can run before the space was removed from the plotter queue (a stopped space could be plotted again)")
 			}
